@@ -386,16 +386,25 @@ func (e *Engine) installIntrinsics() {
 	in := e.intrinsics
 	in["vBool"] = func(fr *frame, a []Value) Value { return e.newInput("h:bool", "", sortBool) }
 	in["vInt"] = func(fr *frame, a []Value) Value {
-		lo, hi := a[0].(int64), a[1].(int64)
-		if lo == hi {
-			// still an input for replay purposes
-			e.nondets = append(e.nondets, nondetRec{Name: fmt.Sprintf("in%d_c", len(e.nondets)), Kind: "h:int", Const: fmt.Sprint(lo)})
-			return lo
+		lo, lok := a[0].(int64)
+		hi, hok := a[1].(int64)
+		if lok && hok {
+			if lo == hi {
+				// still an input for replay purposes
+				e.nondets = append(e.nondets, nondetRec{Name: fmt.Sprintf("in%d_c", len(e.nondets)), Kind: "h:int", Const: fmt.Sprint(lo)})
+				return lo
+			}
+			if lo > hi {
+				e.infeasiblePath("vInt empty range")
+			}
+			return e.newInputIntK("h:int", "", lo, hi)
 		}
-		if lo > hi {
-			e.infeasiblePath("vInt empty range")
-		}
-		return e.newInputIntK("h:int", "", lo, hi)
+		// symbolic bounds
+		lt, ht := e.toTerm(a[0], types.Typ[types.Int]), e.toTerm(a[1], types.Typ[types.Int])
+		t := e.newInput("h:int", "", sortInt)
+		t.Lo, t.Hi = lt.Lo, ht.Hi
+		e.assume(e.simplify(e.ts.And(e.ts.mk(sortBool, "<=", lt, t), e.ts.mk(sortBool, "<=", t, ht)), nil))
+		return t
 	}
 	in["vPick"] = func(fr *frame, a []Value) Value {
 		n := a[0].(int64)
